@@ -129,7 +129,15 @@ impl Step {
                     1 => format!("mk({a})"),
                     _ => format!("mk({a}), mk({b})"),
                 };
-                if r { format!("h{d} = List::from(vec![{items}])") } else { format!("h{d} = script{{ [{items}] }}") }
+                if !r {
+                    format!("h{d} = script{{ [{items}] }}")
+                } else if n == 1 {
+                    format!("h{d} = List::from([{items}])")
+                } else if n == 2 && a != 0 {
+                    format!("h{d} = List::from(&[{items}][..])")
+                } else {
+                    format!("h{d} = List::from(vec![{items}])")
+                }
             }
             Op::Clone { src, d } => {
                 if r { format!("h{d} = h{src}.clone()") } else { format!("h{d} = script{{ fn(l) {{ l }} }}(h{src})") }
